@@ -129,7 +129,7 @@ theorem after_registerWaiting {inp : Input} {s : Sys} (n : Name) (wf : List Name
   · exact h.aft
 
 theorem after_genStep {inp : Input} {s : Sys} {n : Name} {nd : Node} (h : AfterInv inp s) (hn : s.nodes n = some nd)
-    (d : Name) (ds : List Name) (hpc : ∃ ds', nd.pc = .taskIter ds') : AfterInv inp (genStep s n nd d (.taskIter ds)) := by
+    (d : Name) (ds : List Name) (_hpc : ∃ ds', nd.pc = .taskIter ds') : AfterInv inp (genStep s n nd d (.taskIter ds)) := by
   have hx : NodeB (finOf s) { nd with pc := .taskIter ds } ∧ TrigIn inp ({ nd with pc := PC.taskIter ds }).task := by
     obtain ⟨hb, ht⟩ := h.node n nd hn
     refine ⟨⟨fun x hx => ?_, fun hp => by cases hp⟩, ht⟩
